@@ -101,6 +101,91 @@ func wrappers() []wrapper {
 	}
 }
 
+// initModes: how logging is (re-)initialised along an Init history -- disabled,
+// or enabled and written to one log file (obfs4proxy's -enableLogging), the
+// same path at every call of the history.
+var initModes = []string{"disabled", "file"}
+
+var initLogPath string
+
+func initLog(mode string, unsafe bool) error {
+	if mode == "disabled" {
+		return log.Init(false, "", unsafe)
+	}
+	if initLogPath == "" {
+		tf, err := os.CreateTemp(os.Getenv("VERIF_WORK"), "c20-init-*.log")
+		if err != nil {
+			return err
+		}
+		tf.Close()
+		initLogPath = tf.Name()
+	}
+	return log.Init(true, initLogPath, unsafe)
+}
+
+// initToFileScenario: the Init histories with logging enabled and written to a
+// file (the same path at every call, as a process that re-reads its flags
+// does). Init opens the file at every call, so each history is applied once
+// and every shape of depth <= 2 and every address form is evaluated under it.
+func initToFileScenario() mc.Scenario {
+	return mc.Scenario{Name: "init-histories/log-to-file", Run: func(c *mc.Ctx) {
+		defer func() {
+			log.Init(false, "", false)
+			if initLogPath != "" {
+				os.Remove(initLogPath)
+				initLogPath = ""
+			}
+		}()
+		ls, ws := leaves(), wrappers()
+		type shape struct {
+			desc string
+			mk   func() error
+		}
+		var shapes []shape
+		for _, l := range ls {
+			l := l
+			shapes = append(shapes, shape{l.desc, l.mk})
+			for _, w := range ws {
+				w := w
+				shapes = append(shapes, shape{w.desc + "{" + l.desc + "}", func() error { return w.wrap(l.mk()) }})
+			}
+		}
+		n := 0
+		for _, hist := range initHistories() {
+			for _, u := range hist {
+				if err := initLog("file", u); err != nil {
+					fail(c, "setup", "init", "%v", err)
+					return
+				}
+			}
+			unsafeOn := hist[len(hist)-1]
+			for _, sh := range shapes {
+				err := sh.mk()
+				raw := err.Error()
+				out := log.ElideError(err)
+				n++
+				if unsafeOn && out != raw {
+					fail(c, "unsafe-unchanged", "unsafe-changed", "unsafe logging after Init history %v (logging to one file): ElideError(%s) = %q, original text %q", hist, sh.desc, out, raw)
+				} else if l := leaks(out); !unsafeOn && l != "" {
+					fail(c, "scrubbed", "leak/"+shapeKey(sh.desc), "safe logging (Init history %v, logging to one file): ElideError(%s) = %q reveals %q", hist, sh.desc, out, l)
+				}
+			}
+			for _, f := range addrForms {
+				out := log.ElideAddr(f.s)
+				n++
+				if unsafeOn && out != f.s {
+					fail(c, "unsafe-unchanged", "addr/unsafe-changed", "unsafe logging after Init history %v (logging to one file): ElideAddr(%q) = %q", hist, f.s, out)
+				} else if l := leaks(out); !unsafeOn && l != "" {
+					fail(c, "scrubbed", "addr/leak", "safe logging (Init history %v, logging to one file): ElideAddr(%q) = %q reveals %q", hist, f.s, out, l)
+				}
+			}
+		}
+		c.AddExecutions(int64(n))
+		c.Count("evaluations_logging_to_file", int64(n))
+		c.Observe("n", n)
+	}}
+}
+
 func initHistories() [][]bool {
 	return [][]bool{{false}, {true}, {false, true}, {true, false}, {true, true, false}, {false, false}}
 }
@@ -113,8 +198,9 @@ func treeScenario(depth int) mc.Scenario {
 		var rec func(d int, desc string, mk func() error)
 		check := func(desc string, mk func() error) {
 			for _, hist := range initHistories() {
+				mode := "disabled"
 				for _, u := range hist {
-					if err := log.Init(false, "", u); err != nil {
+					if err := initLog(mode, u); err != nil {
 						fail(c, "setup", "init", "%v", err)
 						return
 					}
@@ -321,6 +407,7 @@ func init() {
 			emit(treeScenario(k))
 		}
 		emit(addrScenario())
+		emit(initToFileScenario())
 		cd := 24
 		if cfg.Thorough() {
 			cd = 80
